@@ -31,6 +31,9 @@ fn real_main() -> i32 {
         }
         return 0;
     }
+    if args[1] == "fmt-worker" {
+        return zyverif::drive::fmt_worker_main();
+    }
     if args[1] == "gen" {
         // zyverif gen <seed> <count> [show]: generate core programs, run reference and interpreter
         use zyverif::core::{generate::Cfg, harness as h};
